@@ -5,7 +5,7 @@ From Coq Require Import ZArith QArith List String Bool.
 From HV Require Import Base.QSum Kernel.Fit Stats.Compare Stats.Param.
 From HVgen Require Import Formulas.
 Import ListNotations.
-Open Scope Q_scope.
+Local Open Scope Q_scope.
 
 Lemma tie_translated : translation_failed = false.
 Proof. reflexivity. Qed.
